@@ -40,14 +40,21 @@ pub struct Script {
     pub chunks: VecDeque<Vec<u8>>,
     pub term: Term,
     pub reads: usize,
+    pub budget: usize,
 }
 
 impl Script {
     fn new(chunks: Vec<Vec<u8>>, term: Term) -> Script {
-        Script { chunks: chunks.into_iter().filter(|c| !c.is_empty()).collect(), term, reads: 0 }
+        let chunks: VecDeque<Vec<u8>> = chunks.into_iter().filter(|c| !c.is_empty()).collect();
+        let budget = chunks.iter().map(|c| c.len()).sum::<usize>() + 64;
+        Script { chunks, term, reads: 0, budget }
     }
     fn do_read(&mut self, space: usize) -> io::Result<Vec<u8>> {
         self.reads += 1;
+        // a receive that keeps reading after the script is exhausted is a hang: make it observable
+        if self.chunks.is_empty() && self.reads > self.budget {
+            panic!("read budget exceeded: receive keeps reading");
+        }
         if space == 0 {
             return Ok(Vec::new());
         }
@@ -685,6 +692,23 @@ pub fn gen(cfg: &Cfg) -> Vec<String> {
             }
         }
         "C03" => {
+            // a huge binary response directly followed by another response, delivered in large reads
+            for (k, size) in [70_000usize, 150_000, 300_000].iter().enumerate() {
+                if k > 0 && !cfg.thorough && cfg.seed % 2 == 1 && k == 1 {
+                    continue;
+                }
+                let payload: Vec<u8> = (0..*size).map(|i| (i * 7 + 3) as u8).collect();
+                let rs = vec![
+                    AbsResp { list_form: false, frames: vec![AbsFrame { fields: vec![("size".into(), size.to_string())], binary: Some(payload), bin_pos: 1 }], partial: None, error: None },
+                    AbsResp { list_form: false, frames: vec![AbsFrame { fields: vec![("after".into(), "huge".into())], binary: None, bin_pos: 0 }], partial: None, error: None },
+                ];
+                let len = enc_all(&rs).len();
+                let ser = ser_resps(&rs);
+                for fl in ["a", "s"] {
+                    ops.push(format!("proto.abs {fl} {ser} {len} full 0"));
+                    ops.push(format!("proto.abs {fl} {ser} 65536,{} full 0", len - 65536));
+                }
+            }
             let n = cfg.n.unwrap_or(3000 * scale);
             for i in 0..n {
                 let big = i % 9 == 0;
